@@ -349,6 +349,19 @@ func (R *Renderer) render(v ssa.Value) string {
 		}
 		return fmt.Sprintf("%s#%d", R.V(x.Tuple), x.Index)
 	case *ssa.Call:
+		// errors.Is(err, os.ErrNotExist) / os.ErrExist is os.IsNotExist(err) / os.IsExist(err)
+		if f := x.Call.StaticCallee(); f != nil && f.Pkg != nil && f.Pkg.Pkg.Path() == "errors" && f.Name() == "Is" && len(x.Call.Args) == 2 {
+			if ld, ok := x.Call.Args[1].(*ssa.UnOp); ok && ld.Op == token.MUL {
+				if g, ok := ld.X.(*ssa.Global); ok && g.Pkg != nil && (g.Pkg.Pkg.Path() == "os" || g.Pkg.Pkg.Path() == "io/fs") {
+					switch g.Name() {
+					case "ErrNotExist":
+						return "os.IsNotExist(" + R.V(x.Call.Args[0]) + ")"
+					case "ErrExist":
+						return "os.IsExist(" + R.V(x.Call.Args[0]) + ")"
+					}
+				}
+			}
+		}
 		// errors.As(err, &target) with a local target of type *T is the comma-ok assertion err.(*T)
 		// for errors that are not wrapped, and finds at least as many otherwise
 		if al, e := errorsAsCall(x); al != nil {
@@ -720,8 +733,12 @@ func (R *Renderer) call(x *ssa.Call) string {
 	for _, a := range cc.Args {
 		args = append(args, R.V(a))
 	}
-	if g, _ := injectedCallee(cc); g != nil {
-		// a dependency injected through a field that only ever holds g
+	if g, fwd := injectedCallee(cc); g != nil {
+		// a dependency injected through a field that only ever holds g (or, for an interface-typed
+		// field with one concrete type, that type's own method: the field's value is the receiver)
+		if cc.IsInvoke() && !fwd {
+			args = append([]string{R.V(cc.Value)}, args...)
+		}
 		return FnName(g) + "(" + strings.Join(args, ",") + ")"
 	}
 	if cc.IsInvoke() {
@@ -1132,6 +1149,17 @@ func (R *Renderer) CondAtom(v ssa.Value) Atom {
 	if bo, ok := v.(*ssa.BinOp); ok {
 		if a, ok := R.strLenTest(bo); ok {
 			return a
+		}
+	}
+	// errors.Is(e, <sentinel>) with a sentinel that is never wrapped in this module is the
+	// comparison e == <sentinel> (and matches at least as often otherwise)
+	if cl, ok := v.(*ssa.Call); ok {
+		if f := cl.Call.StaticCallee(); f != nil && f.Pkg != nil && f.Pkg.Pkg.Path() == "errors" && f.Name() == "Is" && len(cl.Call.Args) == 2 {
+			if ld, ok := cl.Call.Args[1].(*ssa.UnOp); ok && ld.Op == token.MUL {
+				if g, ok := ld.X.(*ssa.Global); ok && g.Pkg != nil && g.Pkg.Pkg.Path() == "io" && g.Name() == "EOF" {
+					return Atom{Op: "==0", L: canonEq(R.side(cl.Call.Args[0]).add(R.side(cl.Call.Args[1]), -1))}
+				}
+			}
 		}
 	}
 	switch x := v.(type) {
